@@ -26,15 +26,10 @@ type DecisionMakingParams struct {
 }
 
 func (p *DecisionMakingParams) AllAlternatives() []AlternativeWithCriteria {
-	notConsider := p.NotConsideredAlternatives
-	if notConsider == nil {
-		notConsider = make([]AlternativeWithCriteria, 0)
-	}
-	toConsider := p.ConsideredAlternatives
-	if toConsider == nil {
-		toConsider = make([]AlternativeWithCriteria, 0)
-	}
-	return append(toConsider, notConsider...)
+	// always a new slice: callers modify the result in place
+	result := make([]AlternativeWithCriteria, 0, len(p.ConsideredAlternatives)+len(p.NotConsideredAlternatives))
+	result = append(result, p.ConsideredAlternatives...)
+	return append(result, p.NotConsideredAlternatives...)
 }
 
 type RawMethodParameters = map[string]interface{}
